@@ -88,8 +88,8 @@ fn q_cb_lookup_remove() {
     kani::assume(k < 3);
     arm(&c);
     match kani::any::<u8>() {
-        0 => { let _ = c.get_from_table(&HK(k)).is_some(); }
-        1 => { let _ = c.get_mut_from_table(&HK(k)).is_some(); }
+        0 => { let _ = c.peek(&HK(k)).is_some(); }
+        1 => { let _ = c.get(&HK(k)).is_some(); }
         2 => { c.touch(&HK(k)); }
         3 => { let _ = c.contains(&HK(k)); }
         _ => { let _ = c.remove_entry(&HK(k)); }
